@@ -170,3 +170,28 @@ func verifC02UnlistedSuite() {
 		vReach("unlisted")
 	}
 }
+
+// verifC02WrongIDSealed: a payload sealed correctly to a key the server holds
+// (right info string, AAD over the hello actually sent) but naming a config id
+// that is not that key's id is never accepted, whatever other keys are held.
+func verifC02WrongIDSealed() {
+	name := []byte("pub.example")
+	suites := [][2]uint16{{1, 1}}
+	k := vMakeKey(0, vByte(), suites, name)
+	named := vByte()
+	vAssume(named != k.id)
+	keys := []Key{k.key()}
+	if vBool() {
+		keys = append(keys, vMakeKey(1, vByte(), suites, name).key())
+	}
+	outer := vHello{version: 0x0303, random: vBytes(32), sid: vBytes(1), suites: []byte{0x13, 0x01}, comp: []byte{0}}
+	outer.exts = []vExt{vSNI(name), vVersions(0x0304), {0xfe0d, nil}}
+	inner := vHello{version: 0x0303, random: vBytes(32), suites: []byte{0x13, 0x02}, comp: []byte{0},
+		exts: []vExt{vSNI(vBytes(2)), vECHInner(), vVersions(0x0304)}}
+	info := vCat([]byte("tls ech\x00"), k.config)
+	enc, h := vHpkeSetupSender(k.priv, k.pub, 1, 1, info)
+	s := vSealWith(h, enc, named, 1, 1, outer, 2, vEncodeInner(inner, 0))
+	c, err := NewConn(context.Background(), newVTransport(s.outer.record()), WithKeys(keys))
+	vAssert(err != nil || !c.ECHAccepted(), "a hello naming a config id other than the key's is never accepted")
+	vReach("wrong-id")
+}
